@@ -1,15 +1,20 @@
 #!/bin/sh
-# matrix.sh : every seeded change against the quick check of the property it was seeded for
-cd /verif
-for d in seeded/S-*; do
-  id=$(basename $d); prop=$(python3 -c "import json;print(json.load(open('$d/meta.json'))['breaks'])")
-  cd /repo && git apply /verif/$d/patch.diff || { echo "$id: patch does not apply"; cd /verif; continue; }
-  cd /verif
-  out=$(python3 tools/check.py $prop --tier quick 2>&1)
+# matrix.sh [ids...] : every seeded change against the quick check of the property it was seeded for.
+# Works on $VERIF_REPO (default /repo): applies the patch there, runs the check, reverts.  Run it from the
+# root of a /verif checkout whose harness depends on that repository (vp run --with-repo for an isolated copy).
+REPO=${VERIF_REPO:-/repo}
+V=$(pwd)
+LIST=${*:-$(ls seeded | grep '^S-')}
+for id in $LIST; do
+  d=seeded/$id
+  prop=$(python3 -c "import json;print(json.load(open('$d/meta.json'))['breaks'])")
+  (cd $REPO && git apply $V/$d/patch.diff) || { echo "$id: patch does not apply"; continue; }
+  out=$(VERIF_REPO=$REPO python3 tools/check.py $prop --tier quick 2>&1); rc=$?
   v=$(echo "$out" | grep -c "^VIOLATION")
   d2=$(echo "$out" | grep -c "^DRIFT")
-  why=$(echo "$out" | grep "^VIOLATION" | head -1 | sed 's/.*# //')
-  echo "$id $prop violations=$v drift=$d2 :: $why"
-  git -C /repo checkout -- .
+  why=$(echo "$out" | grep "^VIOLATION" | sed 's/.*# //' | sort | uniq -c | sort -rn | head -2 | tr '\n' ';')
+  echo "$id $prop exit=$rc violations=$v drift=$d2 :: $why"
+  (cd $REPO && git checkout -- .)
 done
-(cd /verif/harness && cargo build --release --offline 2>&1 | grep -E "^error" | head -3)
+(cd $V/harness && cargo build --release --offline 2>&1 | grep -E "^error" | head -3)
+git -C $V checkout -- evidence 2>/dev/null
